@@ -40,12 +40,9 @@ package fiber
 //@ macro contains(path, p, ep) = (hasAnyOf(p, ":*+") ==> len(paramsOf(joinedPath(p, "/*"), ep)) <= maxParams && patternContains(path, p, ep)) && (!hasAnyOf(p, ":*+") ==> onBoundary(path, p))
 // keyWins(a, b): key a wins over key b - the longer one, and of two equally long keys (two parameterised prefixes of one
 // length can both contain a path) the one that is smaller in Go's string order. strcmp is the generator's name for that
-// order; the four raw SMT lines state that it is a strict total order (facts about Go strings, listed as assumptions).
+// order, a strict total order (deps/strings.spec).
 //@ fn keyWins(a string, b string) bool
 //@ smt (assert (forall ((a Str) (b Str)) (! (= (keyWins a b) (or (> (len a) (len b)) (and (= (len a) (len b)) (< (strcmp a b) 0)))) :pattern ((keyWins a b)))))
-//@ smt (assert (forall ((a Str)) (! (= (strcmp a a) 0) :pattern ((strcmp a a)))))
-//@ smt (assert (forall ((a Str) (b Str)) (! (and (= (< (strcmp a b) 0) (> (strcmp b a) 0)) (=> (= (strcmp a b) 0) (= a b))) :pattern ((strcmp a b)))))
-//@ smt (assert (forall ((a Str) (b Str) (c Str)) (! (=> (and (< (strcmp a b) 0) (< (strcmp b c) 0)) (< (strcmp a c) 0)) :pattern ((strcmp a b) (strcmp b c)))))
 
 // Key k of the mount list competes for the error: a mounted sub-app ("" is the app itself) that configured
 // its own handler and whose prefix contains the path. The innermost one is the one with the longest prefix.
